@@ -57,7 +57,7 @@ func nondetUses(p *an.Prog, fn *ssa.Function) []string {
 }
 
 func C16(p *an.Prog, r *an.Report) {
-	r.Explanation = "X1: the call-graph closure of CreateBlindedDestination through the library and go-i2p/crypto contains no nondeterminism source (time.Now, math/rand, crypto/rand, map iteration, goroutines; logging excluded). X2: the day string given to kdf.DeriveBlindingFactor is date.UTC().Format(\"2006-01-02\") of the date parameter and the secret is the secret parameter. X3: the blinded destination is NewKeysAndCert(dest.KeyCertificate, dest.ReceivingPublic, dest.Padding, blinded key) of the same dest. X4: DecryptInnerData evaluated under the assumption that the AEAD open fails reports no success, its success value originates only from the AEAD plaintext, and the slice offsets it reads (ephemeral key [0,32), nonce [32,44), ciphertext [44,n-16), tag [n-16,n)) equal, as affine forms, the order and sizes EncryptInnerLeaseSet2 appends. X5: VerifyBlindedSignature returns the equality of the blinded destination's key with BlindPublicKey(original key, alpha). decrypt(encrypt(x)) = x as a value equality and AEAD tamper rejection are properties of the primitives (trusted). X6: no copy() on the encrypt/decrypt path can truncate (len(dst) >= len(src), relational proof; an X25519 shared secret is trusted to be 32 bytes)."
+	r.Explanation = "X1: the call-graph closure of CreateBlindedDestination through the library and go-i2p/crypto contains no nondeterminism source (time.Now, math/rand, crypto/rand, map iteration, goroutines; logging excluded). X2: the day string given to kdf.DeriveBlindingFactor is date.UTC().Format(\"2006-01-02\") of the date parameter and the secret is the secret parameter. X3: the blinded destination is NewKeysAndCert(dest.KeyCertificate, dest.ReceivingPublic, dest.Padding, blinded key) of the same dest. X4: DecryptInnerData evaluated under the assumption that the AEAD open fails reports no success, its success value originates only from the AEAD plaintext, and the slice offsets it reads (ephemeral key [0,32), nonce [32,44), ciphertext [44,n-16), tag [n-16,n)) equal, as affine forms, the order and sizes EncryptInnerLeaseSet2 appends. X5: VerifyBlindedSignature returns the equality of the blinded destination's key with BlindPublicKey(original key, alpha). decrypt(encrypt(x)) = x as a value equality and AEAD tamper rejection are properties of the primitives (trusted). X6: no copy() on the encrypt/decrypt path can truncate (len(dst) >= len(src), relational proof; an X25519 shared secret is trusted to be 32 bytes). X2 also requires the secret to reach the KDF whole. X7: the AEAD seal and open authenticate the same associated data on every path."
 	r.Rule = "one obligation per clause; the closure scan counts functions scanned; non-trivial = a concrete call site or slice was resolved; X6: one obligation per copy() on the encrypt/decrypt path"
 	defer c16Copies(p, r)
 	r.Trusted = []string{"go-i2p/crypto (kdf, ed25519 blinding, chacha20poly1305), go.step.sm x25519", "go/ssa, VTA call graph"}
